@@ -79,6 +79,130 @@ def coq_eval(pid, imports, typ, exprs):
     return ast.literal_eval(" ".join(body.split()))
 
 
+def coq_str(x):
+    return "[" + "; ".join(str(ord(ch)) for ch in x) + "]"
+
+
+def coq_opt(x, f=coq_str):
+    return "None" if x is None else "(Some %s)" % f(x)
+
+
+def coq_trace_file(t):
+    """Gallina text of the configuration, the password oracle and the event list of a history (only O / L / X events with
+    LF- and CR-free text lines within the length limit - for those the framing is the identity), built from the very
+    configuration lines the extracted driver is given; None if the history has other events"""
+    def uh(h):
+        return bytes.fromhex(h).decode("utf-8")
+    def uo(h):
+        return None if h == "-" else uh(h)
+    fields, opers, users, chans, pws = {}, [], [], [], []
+    for l in t.cfg.to_mc():
+        f = l.split(" ")
+        if f[1] == "oper":
+            opers.append("{| oc_name := %s; oc_password := %s; oc_mask := %s |}" % (coq_str(uh(f[2])), coq_str(uh(f[3])), coq_opt(uo(f[4]))))
+        elif f[1] == "user":
+            users.append("{| uc_name := %s; uc_nick := %s; uc_password := %s; uc_mask := %s |}" % (coq_str(uh(f[2])), coq_str(uh(f[3])), coq_opt(uo(f[4])), coq_opt(uo(f[5]))))
+        elif f[1] == "chan":
+            kv = dict(x.split("=", 1) for x in f[7:])
+            def g(k):
+                v = kv.get(k, "")
+                return "(list_to_set [%s] : gset str)" % "; ".join(coq_str(uh(x)) for x in v.split(",") if x)
+            flags = f[4]
+            chans.append("{| cc_name := %s; cc_topic := %s; cc_modes := {| cm_ban := %s; cm_exception := %s; cm_limit := %s; cm_invex := %s; cm_key := %s; "
+                         "cm_operators := %s; cm_half_operators := %s; cm_voices := %s; cm_founders := %s; cm_protecteds := %s; cm_invite_only := %s; cm_moderated := %s; "
+                         "cm_secret := %s; cm_protected_topic := %s; cm_noext := %s |} |}" % (
+                             coq_str(uh(f[2])), coq_opt(uo(f[3])), g("ban"), g("exception"), "None" if f[6] == "-" else "(Some %s)" % f[6], g("invex"), coq_opt(uo(f[5])),
+                             g("operators"), g("half_operators"), g("voices"), g("founders"), g("protecteds"),
+                             *[("true" if c in flags else "false") for c in "imstn"]))
+        elif f[1] == "pw":
+            pws.append("(%s, %s)" % (coq_str(uh(f[2])), coq_str(uh(f[3]))))
+        else:
+            fields[f[1]] = f[2] if len(f) > 2 else "-"
+    def fs(k):
+        v = fields.get(k, "-")
+        return coq_str("" if v == "-" else uh(v))
+    def fo(k):
+        return coq_opt(uo(fields.get(k, "-")))
+    def fn(k):
+        v = fields.get(k, "-")
+        return "None" if v == "-" else "(Some %s)" % v
+    dm = fields.get("default_modes", "-")
+    dm = "" if dm == "-" else dm
+    cfg = ("{| cfg_name := %s; cfg_admin_info := %s; cfg_admin_info2 := %s; cfg_admin_email := %s; cfg_info := %s; cfg_motd := %s; cfg_network := %s; cfg_password := %s; "
+           "cfg_max_connections := %s; cfg_max_joins := %s; cfg_ping_timeout := %s; cfg_pong_timeout := %s; "
+           "cfg_default_umodes := {| um_invisible := %s; um_oper := %s; um_local_oper := %s; um_registered := %s; um_wallops := %s |}; "
+           "cfg_operators := [%s]; cfg_users := [%s]; cfg_channels := [%s]; cfg_pkg_name := %s; cfg_pkg_version := %s |}" % (
+               fs("name"), fs("admin_info"), fo("admin_info2"), fo("admin_email"), fs("info"), fs("motd"), fs("network"), fo("password"),
+               fn("max_connections"), fn("max_joins"), fields.get("ping_timeout", "120"), fields.get("pong_timeout", "20"),
+               *[("true" if c in dm else "false") for c in "ioOrw"],
+               "; ".join(opers), "; ".join(users), "; ".join(chans), fs("pkg_name"), fs("pkg_version")))
+    evs = []
+    for e in t.events:
+        if e[0] == "O":
+            evs.append("(%d%%nat, EvOpen false)" % e[1])
+        elif e[0] == "X":
+            evs.append("(%d%%nat, EvClose)" % e[1])
+        elif e[0] == "L" and isinstance(e[2], str) and "\r" not in e[2] and "\n" not in e[2] and len(e[2].encode("utf-8")) < 1990:
+            evs.append("(%d%%nat, EvLine %s)" % (e[1], coq_str(e[2])))
+        else:
+            return None
+    return ("From stdpp Require Import gmap.\nFrom IRC Require Import Str Wild Mask Parse Reply State Handlers Step.\nOpen Scope N_scope.\n"
+            "Definition cfg : config := %s.\nDefinition pws : list (str * str) := [%s].\n"
+            "Definition verify (p h : str) : bool := existsb (fun '(p', h') => str_eqb p p' && str_eqb h h') pws.\n"
+            "Definition evs : list (nat * event) := [\n  %s].\n"
+            "Definition result := match run cfg verify (world_init cfg) evs with\n"
+            "  | Ok (w, outs) => Some (List.map (fun '(o, cl) => (List.map (fun '(c, l) => (N.of_nat c, l)) o, List.map N.of_nat cl)) outs)\n  | Panic _ => None end.\n"
+            "Eval vm_compute in result.\n" % (cfg, "; ".join(pws), ";\n  ".join(evs)))
+
+
+def kernel_crosscheck(res, pid, traces, model_steps, k):
+    """a sample of histories is run by Coq's own evaluator on the compiled theories (Step.run under vm_compute: no extraction, no
+    OCaml) and every step's lines and closed connections are compared with what the extracted program printed for the same history"""
+    import ast, subprocess
+    from concurrent.futures import ThreadPoolExecutor
+    d = os.path.join(irc.BUILD, "scratch")
+    os.makedirs(d, exist_ok=True)
+    todo = []
+    for t in traces:
+        if len(todo) >= k:
+            break
+        txt = coq_trace_file(t) if model_steps.get(t.id) else None
+        if txt is not None and len(t.events) <= 120:
+            todo.append((t, txt))
+
+    def one(job):
+        j, (t, txt) = job
+        path = os.path.join(d, "krun_%s_%d.v" % (pid, j))
+        open(path, "w").write(txt)
+        p = subprocess.run(["coqc", "-noglob", "-Q", os.path.join(irc.VERIF, "coq", "theories"), "IRC", path], capture_output=True, text=True, timeout=1200)
+        if p.returncode != 0:
+            return t, None, p.stderr[-600:]
+        out = p.stdout
+        body = " ".join(out[out.index("= ") + 2:out.rindex(": option")].split())
+        body = body.replace("%N", "").replace(";", ",").replace("Some ", "")
+        return t, (None if body.strip() == "None" else ast.literal_eval(body)), ""
+    checked = steps = 0
+    with ThreadPoolExecutor(max_workers=8) as ex:
+        for t, val, err in ex.map(one, enumerate(todo)):
+            ms = sorted(model_steps[t.id], key=lambda s: s["k"])
+            if val is None:
+                if err or not any(s.get("panics") for s in ms):
+                    res.violation("history %s could not be evaluated inside Coq, or Coq's evaluation aborts where the extracted program does not: %s" % (t.id, err), {"kind": "tie", "trace": t.describe()}, found=False)
+                continue
+            checked += 1
+            for s, (o, cl) in zip(ms, val):
+                by = {}
+                for c, l in o:
+                    by.setdefault(str(c), []).append("".join(chr(x) for x in l))
+                steps += 1
+                if by != {c: ls for c, ls in (s.get("out") or {}).items() if ls} or sorted(set(cl)) != sorted(s.get("eof") or []):
+                    res.violation("the extracted program and Coq's own evaluation of Step.run disagree at step %d of %s" % (s["k"], t.id),
+                                  {"kind": "tie", "trace": t.describe(), "in_coq": by, "extracted": s.get("out"), "closed_in_coq": cl, "closed_extracted": s.get("eof")}, found=False)
+                    break
+    res.coverage["evaluated_inside_coq"] = {"histories": checked, "steps": steps,
+                                            "note": "Step.run under vm_compute on the compiled theories, compared step by step with the extracted OCaml program"}
+
+
 def check_C14(res):
     pairs, exh = c14_pairs(res)
     lines = ["W %s %s" % (hx(p), hx(t)) for p, t in pairs]
@@ -2597,6 +2721,8 @@ def check_C05(res):
     def orc(t, steps):
         return eof_oracle(t, steps) + inv_oracle(t, steps)
     r = l2_campaign(res, "C05", 0, 0, prof, traces=traces, oracle=orc)
+    # the extraction itself: some of the torture histories are run by Coq's own evaluator and compared with the extracted program
+    kernel_crosscheck(res, "C05", r["trace_objs"], r["model"], 8 if res.tier == "quick" else 64)
     # pure functions: no abort on any input (debug, and release in the thorough tier)
     pl = []
     for _ in range(4000 if res.tier == "quick" else 60000):
